@@ -1,6 +1,7 @@
 (* C09: which trials a suggestion reconcile selects for its experiment's algorithm and early-stopping services.
-   ReconcileSuggestion: List(trials, InNamespace(instance.Namespace), MatchingLabels(util.TrialLabels(experiment)))
-   followed by the two skips of General.ConvertTrials.  Namespaces, names, label keys and values are interned numbers;
+   ReconcileSuggestion: List(trials, InNamespace(instance.Namespace), MatchingLabels({experiment-name label: experiment.Name}))
+   (since the repair of F19, katib 88eea22; before it the selector was util.TrialLabels(experiment), i.e. ALL labels the
+   experiment carries now: [select_all_labels] below) followed by the two skips of General.ConvertTrials.  Namespaces, names, label keys and values are interned numbers;
    a label map is an association list with unique keys (the harness prints Go maps that way). *)
 From KV Require Import Base.Prelude.
 
@@ -37,7 +38,14 @@ Definition trial_labels (e : sexp) : labels := set_label KEY_EXPERIMENT (se_name
 Definition matches (sel lab : labels) : bool :=
   forallb (fun kv => match lookup (fst kv) lab with Some v => Nat.eqb v (snd kv) | None => false end) sel.
 
+(* the selector of the suggestion controller: the experiment-name label *)
+Definition name_selector (e : sexp) : labels := [(KEY_EXPERIMENT, se_name e)].
+
 Definition select (e : sexp) (cl : list strial) : list strial :=
+  filter (fun t => Nat.eqb (st_ns t) (se_ns e) && matches (name_selector e) (st_labels t)) cl.
+
+(* the selection before the repair of F19: every label the experiment carries now must be on the trial *)
+Definition select_all_labels (e : sexp) (cl : list strial) : list strial :=
   filter (fun t => Nat.eqb (st_ns t) (se_ns e) && matches (trial_labels e) (st_labels t)) cl.
 
 (* General.ConvertTrials skips metrics-unavailable trials and early-stopped trials without observation *)
